@@ -49,10 +49,31 @@ const (
 	tvSameNoNL // end slot only
 	tvOwnNoNL  // end slot only
 	tvTwoSp
+	// the line-terminator family: CR LF, bare CR, mixtures, other whitespace
+	tvCRLF
+	tvCR
+	tvTab
+	tvVT
+	tvFF
+	tvLFCR
+	tvBlankCRLF
+	tvSameCRLF
+	tvSameCR
+	tvOwnCRLF
+	tvOwnCR
+	tvOwnLFCR
+	tvParaCRLF
+	tvSameTab
+	tvSameCRCRLF
 	numTrivia
 )
 
-var triviaNames = [numTrivia]string{`""`, `" "`, `"\n"`, `"\n\n\n"`, `" ; cN\n"`, `"\n;; dN\n"`, `"\n\n; eN\n\n"`, `" ; cN"`, `"\n;; dN"`, `"  "`}
+var triviaNames = [numTrivia]string{`""`, `" "`, `"\n"`, `"\n\n\n"`, `" ; cN\n"`, `"\n;; dN\n"`, `"\n\n; eN\n\n"`, `" ; cN"`, `"\n;; dN"`, `"  "`,
+	`"\r\n"`, `"\r"`, `"\t"`, `"\v"`, `"\f"`, `"\n\r"`, `"\r\n\r\n\r\n"`, `" ; cN\r\n"`, `" ; cN\r"`, `"\r\n;; dN\r\n"`, `"\r;; dN\r"`, `"\n;; dN\r"`,
+	`"\r\n\r\n; eN\r\n\r\n"`, `"\t; cN\n"`, `" ; cN\r\r\n"`}
+
+// lineTerm is the line-terminator family in enumeration order.
+var lineTerm = []int{tvCRLF, tvCR, tvTab, tvVT, tvFF, tvLFCR, tvBlankCRLF, tvSameCRLF, tvSameCR, tvOwnCRLF, tvOwnCR, tvOwnLFCR, tvParaCRLF, tvSameTab, tvSameCRCRLF}
 
 // trivia renders trivia kind k for slot s.  Comment texts carry the slot
 // number so that every comment of a text is distinct and a swap is visible.
@@ -78,11 +99,39 @@ func trivia(k, s int) string {
 		return fmt.Sprintf("\n;; d%d", s)
 	case tvTwoSp:
 		return "  "
+	case tvCRLF:
+		return "\r\n"
+	case tvCR:
+		return "\r"
+	case tvTab:
+		return "\t"
+	case tvVT:
+		return "\v"
+	case tvFF:
+		return "\f"
+	case tvLFCR:
+		return "\n\r"
+	case tvBlankCRLF:
+		return "\r\n\r\n\r\n"
+	case tvSameCRLF:
+		return fmt.Sprintf(" ; c%d\r\n", s)
+	case tvSameCR:
+		return fmt.Sprintf(" ; c%d\r", s)
+	case tvOwnCRLF:
+		return fmt.Sprintf("\r\n;; d%d\r\n", s)
+	case tvOwnCR:
+		return fmt.Sprintf("\r;; d%d\r", s)
+	case tvOwnLFCR:
+		return fmt.Sprintf("\n;; d%d\r", s)
+	case tvParaCRLF:
+		return fmt.Sprintf("\r\n\r\n; e%d\r\n\r\n", s)
+	case tvSameTab:
+		return fmt.Sprintf("\t; c%d\n", s)
+	case tvSameCRCRLF:
+		return fmt.Sprintf(" ; c%d\r\r\n", s)
 	}
 	panic("trivia kind")
 }
-
-func isHeavy(k int) bool { return k >= tvBlank }
 
 const hashBangLine = "#!/usr/bin/env elps\n"
 
@@ -160,11 +209,12 @@ type spec struct {
 	EndExtra []int // additional (heavy) kinds for the last slot
 	HashBang []bool
 	Cfgs     []namedCfg
-	Real     bool  // also drive the production entry point formatter.Format
-	Prune    bool  // sequences with ill-nested brackets: light assignments only
-	Alpha    []int // indices into alphabet; nil = the whole alphabet
-	Glue     bool  // the light trivia are fixed by position: "" at the start and after a prefix token (' #' #^), "\n" at the end, " " elsewhere
-	GlueNL   bool  // with Glue: "\n" is a second light choice in every slot except directly after #' and #^
+	Real     bool   // also drive the production entry point formatter.Format
+	Prune    bool   // sequences with ill-nested brackets: light assignments only
+	Alpha    []int  // indices into alphabet; nil = the whole alphabet
+	Glue     bool   // the light trivia are fixed by position: "" at the start and after a prefix token (' #' #^), "\n" at the end, " " elsewhere
+	HBLine   string // the hash-bang line when HashBang is true; "" = hashBangLine
+	GlueNL   bool   // with Glue: "\n" is a second light choice in every slot except directly after #' and #^
 }
 
 func (s spec) alpha() []int {
@@ -341,7 +391,11 @@ func (e *explorer) explore(s spec, workers []*wstats) {
 			lightOnly := s.Prune && !wellNested(seq)
 			buf := make([]byte, 0, 128)
 			if hb {
-				buf = append(buf, hashBangLine...)
+				if s.HBLine != "" {
+					buf = append(buf, s.HBLine...)
+				} else {
+					buf = append(buf, hashBangLine...)
+				}
 			}
 			seqAccepted, seqInteresting := false, false
 			var rec func(slot, heavy int, buf []byte)
@@ -395,9 +449,9 @@ func (e *explorer) explore(s spec, workers []*wstats) {
 					}
 					return
 				}
-				try := func(k int) {
+				try := func(k int, isHeavy bool) {
 					h := heavy
-					if isHeavy(k) {
+					if isHeavy {
 						h++
 						if h > s.MaxHeavy || lightOnly {
 							return
@@ -417,21 +471,21 @@ func (e *explorer) explore(s spec, workers []*wstats) {
 					case slot == 0 || isPrefixTok(seq[slot-1]):
 						def = tvNone
 					}
-					try(def)
+					try(def, false)
 					if s.GlueNL && def != tvNL && !(slot > 0 && (seq[slot-1] == 5 || seq[slot-1] == 6)) {
-						try(tvNL)
+						try(tvNL, false)
 					}
 				} else {
 					for _, k := range s.Light {
-						try(k)
+						try(k, false)
 					}
 				}
 				for _, k := range s.Heavy {
-					try(k)
+					try(k, true)
 				}
 				if slot == L {
 					for _, k := range s.EndExtra {
-						try(k)
+						try(k, true)
 					}
 				}
 			}
@@ -455,6 +509,9 @@ var extras = []string{
 	"\"\"", "\"a\\\\\"", "\"\"\"r\nr\"\"\"", "(a \"\"\"r\nr\"\"\" b)", "(a\n \"\"\"r\nr\"\"\"\n b)", "'''a", "''[a]", "'#^a", "'#'a", "#^'a", "#^[a]", "#^(a [b])",
 	"(lisp:function a)", "(lisp:function ; c\n a)", "(lisp:expr a)", "(lisp:expr ; c\n a)", "(lisp:expr (a (b)))", "(lisp:function (a))", "'(lisp:function a)",
 	"(defun a (b)\n  ; c\n  b)", "(let ([a 1] ; c\n      [b 2])\n  a)", "(a\n\n\n b)", "(a  b   :k)", "a  ; c", "(a  ; c\n)", "(  a)", "[  a  ]",
+	"(list 1 ; one\r 2)", "(list 1 ; one\r\n 2)\r\n", "(list 1 ; one\r 2)\n", "(a\r b)", "a\r\n\r\n\r\nb\r\n", "; c\r", "; c\r\n", ";\r;\r", "\r", "\r\n", "\t\v\f",
+	"#!x\r\n(a)", "#!x\r(a)\n", "#!x\r\n; c\r\n'a\r\n", "#!\r", "#!\r\n", "\"s\r\"", "\"\"\"a\r\nb\"\"\"", "(a \"\"\"a\r\nb\"\"\" ; c\r\n b)",
+	"a\u00a0b", "a\u0085b", "(a ; c\u2028 b)", "(a ; c\u0085 b)", "(a ; c\u2028 b)\n", "(a ; c\v b)", "(a ; c\f b)", "(a ; c\v b)\n",
 	"a:b", "a:b:c", "a:", ":", "#'a:b", "#'", "#' a", "#^ a", "'", "' ", "(", ")", "(]", "[)", "\"", "\"\"\"", "#", "#q", "1.", "1e", "#x", "#xG", "#o8", "\xff", "a\xff",
 }
 
@@ -487,6 +544,9 @@ func run(r *core.Run) {
 	var specs []spec
 	small := []int{0, 1, 2, 3, 4, 5, 6, 7, 10} // ( ) [ ] ' #' #^ a 1
 	lightX := append(append([]int{}, light...), tvTwoSp)
+	ltAll := append(append([]int{}, heavy...), lineTerm...) // LF comments and blank lines + the whole line-terminator family
+	lt15 := []int{tvSame, tvOwn, tvCRLF, tvCR, tvTab, tvFF, tvLFCR, tvSameCRLF, tvSameCR, tvOwnCRLF, tvOwnCR, tvOwnLFCR, tvParaCRLF, tvSameTab, tvSameCRCRLF}
+	const hbCRLF = "#!/usr/bin/env elps\r\n"
 	wide := make([]int, len(alphabet)) // the 16 tokens plus the two-line raw string
 	for i := range wide {
 		wide[i] = i
@@ -497,6 +557,10 @@ func run(r *core.Run) {
 			{Name: "Q2-L3-two-heavy-slots", MinL: 3, MaxL: 3, Light: light, Heavy: heavy, MaxHeavy: 2, EndExtra: endX, HashBang: []bool{false}, Cfgs: all},
 			{Name: "Q3-L<=2-real-entry", MinL: 0, MaxL: 2, Light: light, Heavy: heavy, MaxHeavy: 99, EndExtra: endX, HashBang: []bool{false, true}, Cfgs: realCfgs, Real: true},
 			{Name: "Q4-L4-two-heavy-slots", MinL: 4, MaxL: 4, Glue: true, Heavy: []int{tvSame, tvOwn, tvPara}, MaxHeavy: 2, HashBang: []bool{false}, Cfgs: all, Prune: true},
+			// line terminators (no pruning here: a comment ended by a bare CR runs on to the next LF and can swallow brackets)
+			{Name: "Q5-L<=2-line-terminators", MinL: 0, MaxL: 2, Light: light, Heavy: ltAll, MaxHeavy: 2, EndExtra: endX, HashBang: []bool{false, true}, HBLine: hbCRLF, Cfgs: all},
+			{Name: "Q6-L3-line-terminators", MinL: 3, MaxL: 3, Glue: true, Heavy: lt15, MaxHeavy: 2, EndExtra: endX, HashBang: []bool{false}, Cfgs: all},
+			{Name: "Q7-L<=2-line-terminators-real-entry", MinL: 0, MaxL: 2, Glue: true, Heavy: ltAll, MaxHeavy: 2, EndExtra: endX, HashBang: []bool{false}, Cfgs: realCfgs, Real: true},
 		}
 	} else {
 		specs = []spec{
@@ -506,6 +570,11 @@ func run(r *core.Run) {
 			{Name: "T4-L4-two-heavy-slots", MinL: 4, MaxL: 4, Glue: true, GlueNL: true, Heavy: heavy, MaxHeavy: 2, EndExtra: endX, HashBang: []bool{false}, Cfgs: all, Prune: true},
 			{Name: "T5-L5-two-heavy-slots", MinL: 5, MaxL: 5, Glue: true, Heavy: []int{tvSame, tvOwn, tvPara}, MaxHeavy: 2, HashBang: []bool{false}, Cfgs: all, Prune: true},
 			{Name: "T6-L6-small-alphabet", MinL: 6, MaxL: 6, Glue: true, Heavy: []int{tvSame, tvOwn}, MaxHeavy: 2, HashBang: []bool{false}, Cfgs: all, Prune: true, Alpha: small},
+			// line terminators (never pruned)
+			{Name: "T7-L<=2-line-terminators", MinL: 0, MaxL: 2, Light: lightX, Heavy: ltAll, MaxHeavy: 99, EndExtra: endX, HashBang: []bool{false, true}, HBLine: hbCRLF, Cfgs: all, Alpha: wide},
+			{Name: "T8-L3-line-terminators", MinL: 3, MaxL: 3, Glue: true, GlueNL: true, Heavy: ltAll, MaxHeavy: 2, EndExtra: endX, HashBang: []bool{false}, Cfgs: all},
+			{Name: "T9-L4-line-terminators", MinL: 4, MaxL: 4, Glue: true, Heavy: []int{tvCRLF, tvCR, tvTab, tvSameCRLF, tvSameCR, tvOwnCRLF, tvOwnCR, tvSameCRCRLF}, MaxHeavy: 2, HashBang: []bool{false}, Cfgs: all},
+			{Name: "T10-L<=2-line-terminators-real-entry", MinL: 0, MaxL: 2, Glue: true, Heavy: ltAll, MaxHeavy: 2, EndExtra: endX, HashBang: []bool{false, true}, HBLine: hbCRLF, Cfgs: realCfgs, Real: true, Alpha: wide},
 		}
 	}
 	e := &explorer{r: r, reported: map[string]int{}}
